@@ -264,6 +264,26 @@ CLAIMED = {
             'solver-enumerated representation vectors (z3 all-SAT) with '
             'differential execution against the float64 baseline; symbolic '
             'execution (SYM) for process_quantities-free layout independence'),
+    'C18': ('3/C18',
+            'make_model_image on a 9x11 image for every solver-chosen table '
+            'of 1-2 rows (thorough 3) with ordered positions from a lattice '
+            'of 12 (inside, half-integer, on the edge, outside by less / '
+            'more than half a window on every side), window shapes 3,4,5,'
+            '(3,5) or a per-row column, local_bkg present or not, plain or '
+            'unit-ful model, parameter renaming with a same-named decoy '
+            'column, three model kinds and three discretisations: the image '
+            'equals the independent sum over rows of the model on the '
+            'window clipped to the image plus local_bkg (1e-12), '
+            'non-overlapping rows are skipped, units are carried for every '
+            'overlap pattern, model and table are unchanged; row order and '
+            'concatenation follow because every ordered selection is '
+            'compared with an order-free oracle. PSFPhotometry residual '
+            'image = data - model image exactly.',
+            'finite lattice enumerated by the solver; model evaluation '
+            'itself is concrete float code',
+            'solver-enumerated parameter tables (z3 all-SAT over row order, '
+            'positions, shapes, flags) executed on the real function and '
+            'compared with an independent superposition oracle'),
 }
 
 NOT_YET = {}
